@@ -118,8 +118,42 @@ pub const EXIT_VIOLATION: i32 = 1;
 pub const EXIT_INCONCLUSIVE: i32 = 2;
 pub const EXIT_SUSPECT_HANG: i32 = 3;
 
+static LAYER: std::sync::OnceLock<String> = std::sync::OnceLock::new();
+
+/// Name of the layer this process runs as (release, checked, asan, miri.N, cov, ...).
+pub fn layer() -> &'static str {
+    LAYER.get().map(|s| s.as_str()).unwrap_or("release")
+}
+
+/// Cases that allocate multi-GiB buffers run only in the plain builds (not under the sanitizers,
+/// the interpreter or the coverage build), one at a time.
+pub fn huge_ok() -> bool {
+    let l = layer();
+    !small() && (l.starts_with("release") || l.starts_with("checked") || l == "replay")
+}
+
+static HUGE_LOCK: std::sync::Mutex<()> = std::sync::Mutex::new(());
+
+/// Calls `f` with a zero-filled buffer of `len` bytes that begins with `front` (only the pages
+/// that are written or read are ever touched; the allocation is lazily zeroed virtual memory).
+pub fn with_huge<R>(front: &[u8], len: usize, f: impl FnOnce(&[u8]) -> R) -> Option<R> {
+    let _g = HUGE_LOCK.lock().unwrap_or_else(|e| e.into_inner());
+    let mut v: Vec<u8> = Vec::new();
+    if v.try_reserve_exact(len).is_err() {
+        return None;
+    }
+    v = vec![0u8; len];
+    let n = front.len().min(len);
+    v[..n].copy_from_slice(&front[..n]);
+    Some(f(&v))
+}
+
+/// Buffer sizes at which 32-bit (and signed 32-bit) size arithmetic goes wrong.
+pub const HUGE_SIZES: [usize; 6] = [(1 << 31) + 5, (1 << 32) + 3, (1 << 32) + 21, (1 << 32) + 65_551, (1 << 33) + 7, (1 << 32) - 1];
+
 pub fn run(monitor: &dyn Monitor, cfg: &RunCfg) -> i32 {
     let t0 = Instant::now();
+    let _ = LAYER.set(cfg.layer.clone());
     SMALL.store(cfg.tier == Tier::Miri, Ordering::Relaxed);
     let mut streams = monitor.streams(cfg.tier);
     if let Some(only) = &cfg.only_stream {
